@@ -95,6 +95,16 @@ theorem pow256 (k : Nat) : (2 : Nat) ^ (8 * k) = 256 ^ k := by
   have : (256 : Nat) = 2 ^ 8 := by decide
   rw [this, ← Nat.pow_mul]
 
+/-- every `AMO_FUNS` entry maps two `w`-bit operands to a `w`-bit value (so what an AMO writes back needs no truncation) -/
+theorem amoFun_lt (w : Nat) (op : AmoOp) (m a : Nat) (hm : m < 2 ^ w) (ha : a < 2 ^ w) : amoFun w op m a < 2 ^ w := by
+  cases op <;> simp only [amoFun]
+  case add => exact Nat.mod_lt _ (Nat.two_pow_pos w)
+  case and => exact Nat.and_lt_two_pow _ ha
+  case or => exact Nat.or_lt_two_pow hm ha
+  case xor => exact Nat.xor_lt_two_pow hm ha
+  case swap => exact ha
+  all_goals (split <;> assumption)
+
 /-! ## sequential specification -/
 
 theorem service_bytes (r : Req) (m : Store) (h : Bytes m) : Bytes (service r m).2 := by
